@@ -29,6 +29,10 @@ type c06Cfg struct {
 type c06Case struct {
 	Cfg  c06Cfg   `json:"config"`
 	Hist []string `json:"history"`
+	// OperatorFilesAt >= 0: during the LAST event of the history (a manager iteration) another
+	// initiator files a planned request, create-if-absent like the CLI does, just before the
+	// iteration's call number OperatorFilesAt
+	OperatorFilesAt *int `json:"operator_files_before_call,omitempty"`
 }
 
 var c06Alphabet = []string{"tick", "adv5", "advT", "fileTo3", "fileFrom1", "fileForced", "workerTo3", "workerNoTransition", "abort",
@@ -140,6 +144,23 @@ func c06Run(r *vt.Run, c c06Case, report bool) (canon string) {
 				beforeID = ident(before)
 			}
 			np := len(w.Panics)
+			lastBase := len(w.Trace)
+			if step == len(c.Hist)-1 {
+				defer func() { c06LastEventCalls = len(w.Trace) - lastBase }()
+			}
+			if c.OperatorFilesAt != nil && step == len(c.Hist)-1 {
+				w.Plan[len(w.Trace)+*c.OperatorFilesAt] = sim.Deviation{Kind: sim.DevEnv}
+				w.EnvHook = func(int) {
+					if w.ZK.Exists(vns + "/switch") {
+						return // create-if-absent: the key exists, the initiator is refused
+					}
+					s := Switchover{To: "h3", Cause: CauseManual, InitiatedBy: "operator", InitiatedAt: time.Now(), MasterTransition: SwitchoverTransition}
+					w.ZK.Put(vns+"/switch", jsonStr(s))
+					id := ident(&s)
+					reqs[id] = &c06Req{id: id, planned: true, filedAt: w.Now()}
+					r.Count("requests_filed_inside_a_manager_iteration")
+				}
+			}
 			switch ev {
 			case "tick":
 				h.InjectHealth()
@@ -356,7 +377,18 @@ func vBFS(r *vt.Run, tag string, alphabet []string, depth int, enabled func(hist
 	}
 }
 
+// c06CallsOfLastEvent runs the history undisturbed and returns the number of calls of its last event.
+func c06CallsOfLastEvent(r *vt.Run, c c06Case) int {
+	c06LastEventCalls = 0
+	c06Run(r, c, true)
+	r.R.Evaluations--
+	return c06LastEventCalls
+}
+
+var c06LastEventCalls int
+
 func checkC06(r *vt.Run) {
+	envIdx := 0
 	var rc c06Case
 	if r.ReplayInto(&rc) {
 		c06Run(r, rc, true)
@@ -415,7 +447,7 @@ func checkC06(r *vt.Run) {
 			return true
 		}
 		runner := func(hist []string) string {
-			c := c06Case{cfg, hist}
+			c := c06Case{Cfg: cfg, Hist: hist}
 			r.Crumb(c)
 			if len(hist) == 3 && hist[0] == "fileTo3" && hist[1] == "tick" {
 				r.Sample(c)
@@ -427,5 +459,23 @@ func checkC06(r *vt.Run) {
 		focus := []string{"tick", "fileForced", "fileFrom1", "stuckOn", "h2dies", "abort", "advT", "masterDies"}
 		vBFS(r, "focus|", focus, depth+1, enabled, runner)
 		r.Bound("focus_alphabet_depth", depth+1)
+		// b=1 environment deviation: another initiator files a request at every call boundary of a
+		// manager iteration that itself files or starts something
+		for _, hist := range [][]string{{"masterDies", "tick"}, {"masterDies", "adv5", "tick"}, {"tick"}, {"fileFrom1", "tick"}, {"h2dies", "tick"}} {
+			base := c06Case{Cfg: cfg, Hist: hist}
+			n := c06CallsOfLastEvent(r, base)
+			r.Bound(fmt.Sprintf("operator_files_at_every_call_of_%v", hist), n)
+			for at := 0; at < n; at++ {
+				envIdx++
+				if !r.Mine(envIdx) {
+					continue
+				}
+				at := at
+				cc := base
+				cc.OperatorFilesAt = &at
+				r.Crumb(cc)
+				c06Run(r, cc, true)
+			}
+		}
 	}
 }
